@@ -11,7 +11,12 @@ from ..nestedcheck import NStream
 
 
 def knobs():
-    return nested.NKnobs(max_trans=5, p_cond_false=0.4)
+    return nested.NKnobs(max_trans=5, p_cond_false=0.4, p_suspend=0.25)
+
+
+def knobs_models():
+    # several models on one machine, some of them falsy (always, or during every other call of theirs)
+    return nested.NKnobs(max_models=3, p_falsy=0.6, max_states=9, max_history=12, p_suspend=0.2)
 
 
 def knobs_enum():
@@ -43,6 +48,7 @@ class C03(nestedcheck.NestedCheck):
     monitor_kind = 'c03m'
     streams = (
         NStream('random', knobs=knobs, quick=(16, 60), thorough=(48, 250)),
+        NStream('multi-model', knobs=knobs_models, quick=(8, 40), thorough=(16, 150)),
         NStream('enum-states', knobs=knobs_enum, quick=(8, 40), thorough=(16, 150), enum_states=True,
                 pool=('LockedHierarchicalMachine', 'HierarchicalAsyncMachine')),   # the Mermaid graph classes reject Enum children
         NStream('global-only', knobs=knobs_global, quick=(8, 60), thorough=(24, 250)),
